@@ -147,7 +147,42 @@ theorem atomFull_good : GoodAtom env0 atomFull := by
   · apply Spec.boundsIn_of_allVers
     simp [Spec.AllVers, Range.AllVers, atomFull, Spec.FinalV, Ver.isFinal]
 
-/-- one instance of each character-level assumption, evaluated in the kernel -/
+/-- `python_version > "3.8"` as the parser builds it: the strict comparison that has to be
+    re-read as `python_full_version >= "3.9"` -/
+def atomPvGt : Atom :=
+  ⟨"python_version", .gt, "3.8", false,
+   .ver (.range { min := some { release := [3, 8] }, text := some ⟨.gt, { release := [3, 8] }, false⟩ })⟩
+
+/-- `>= 3.9` as parsed -/
+def normGe39 : Spec Ver :=
+  .range { min := some { release := [3, 9] }, incMin := true, text := some ⟨.ge, { release := [3, 9] }, false⟩ }
+
+theorem nice_of_clause (c : Clause Ver) (s : Spec Ver) (h : fromClause c = some s) (hv : Spec.FinalV c.ver) : C06.Nice s :=
+  ⟨fromClause_canon c s h, Spec.fromClause_textInv c s h, fromClause_final c hv s h⟩
+
+theorem atomPvGt_good : GoodAtom env0 atomPvGt := by
+  refine ⟨by unfold Atom.WF; decide, ?_⟩
+  have h1 : atomPvGt.name ≠ "extra" := by decide
+  have h2 : setNames.contains atomPvGt.name = false := by decide
+  have h3 : versionLikeNames.contains atomPvGt.name = true := by decide
+  simp only [h1, if_false, h2, Bool.false_eq_true, h3, if_true]
+  refine ⟨by unfold Atom.Coherent; decide, ?_, ?_, ?_⟩
+  · exact nice_of_clause ⟨.gt, { release := [3, 8] }, false⟩ _ (by simp [fromClause]) ⟨rfl, rfl, by simp⟩
+  · intro _ ns hns
+    have hnorm : normalizePythonVersion atomPvGt = some (.ver ((Spec.range {}).and normGe39)) := by decide
+    rw [hnorm] at hns
+    cases hns
+    refine ⟨by decide, ?_, (by decide : versionLikeNames.contains "python_full_version" = true)⟩
+    exact C06.nice_and _ _ nice_anyRange
+      (nice_of_clause ⟨.ge, { release := [3, 9] }, false⟩ normGe39 (by simp [fromClause, normGe39]) ⟨rfl, rfl, by simp⟩)
+  · intro _
+    apply Spec.boundsIn_of_allVers
+    simp [Spec.AllVers, Range.AllVers, atomPvGt, Pv2, Spec.FinalV, Ver.isFinal]
+    intro i hi
+    match i, hi with
+    | i + 2, _ => simp
+
+/-- instances of the character-level facts (now theorems), evaluated in the kernel -/
 example : SpecParse.parseAltsText ((MOp.ofCOp .ge).str ++ fsText "python_full_version" ⟨.ge, { release := [3, 8] }, false⟩)
     = some [.clauses [fsC "python_full_version" ⟨.ge, { release := [3, 8] }, false⟩]] := by decide
 
